@@ -75,3 +75,114 @@ c.loop(('zip(module_parts, attr_names[:-1])', None), [Clause(
         sym.forall([i_], z3.Implies(z3.And(0 <= i_, i_ < k),
                                     _mp(x).arr[i_] == x.a.attr_names.arr[i_]))))])
 register(c)
+
+
+# ---- ParseContext: per-file import table (C19) ------------------------------------------------------
+from pyvc.sym import KDict, VStr, VExc, PyRaise
+from contracts.c_parse_loop import IMPORT_EFFECTS
+
+PCtx = KRecord('ParseContext', {
+    '_import_manager': KVal, '_imports': KList(ImpA), '_symbol_table': KDict(KStr, KVal),
+    '_symbol_source': KDict(KStr, KOpt(ImpA)), '_dynamic_registration': KBool},
+    mutable=True, variant='Full')
+world.RECORD_CLASSES['ParseContext'] = ('config.py', PCtx)
+world.INLINE.add('config.py::ParseContext._enable_dynamic_registration')
+
+# assumed: what the abstract view needs from the string-level methods (proved in c_strings.py)
+for _nm in ('bound_name', 'format'):
+  c = Contract('config_parser.py::ImportStatement.' + _nm + '#abstract', ['C19'], kind='assumed')
+  c.param('self', ImpA)
+  c.result = KStr
+  c.ensure('functional', (lambda nm: lambda x: x.result.e == sym.ufun(
+      'import_' + nm, ImpA.sort(), sym.Str)(ImpA.box(x.a.self)))(_nm))
+  c.raises_only_listed = True
+  c.assumptions.append('abstract view of ImportStatement.' + _nm + ' (its string semantics are '
+                       'proved in c_strings.py)')
+  register(c)
+
+
+def bound_name_of(stmt):
+  return sym.ufun('import_bound_name', ImpA.sort(), sym.Str)(ImpA.box(stmt))
+
+
+world.EXTERNALS['__import__'] = 'ext::__import__'
+c = Contract('ext::__import__', ['C19', 'C15'], kind='assumed')
+c.param('name', KStr)
+c.param('fromlist', KVal, default=lambda ex: VObj(sym.VAL_NONE))
+c.result = KVal
+c.modifies = set(IMPORT_EFFECTS)
+c.ensure('functional_in_name_and_fromlist', lambda x: x.result.e == sym.ufun(
+    'imported_module', sym.Str, sym.Val, sym.Val)(x.a.name.e, x.a.fromlist.e))
+c.may_raise_other = True
+c.assumptions.append('__import__ returns the module object for its arguments (module code may '
+                     'register configurables / constants)')
+register(c)
+world.GLOBAL_VALUES['__import__'] = lambda ex: sym.VPy('external', 'ext::__import__')
+world.GLOBAL_VALUES['_GinBuiltins'] = lambda ex: sym.VPy('opaque', '_GinBuiltins')
+
+c = Contract('config.py::ParseContext.process_import', ['C19', 'C15', 'C16'])
+c.self_kind = PCtx
+c.param('statement', ImpA)
+c.modifies = set(IMPORT_EFFECTS)
+c.modifies_self = ['_imports', '_symbol_table', '_symbol_source', '_dynamic_registration']
+c.opaque_may_raise = False          # constructing _GinBuiltins()
+c.abstract_stmts.append((lambda s: __import__('ast').unparse(s).startswith('existing_imports ='),
+                         'error-message text'))
+c.local_kinds = {'existing_imports': KList(KStr)}
+_GINP = lambda: sym.str_lit('__gin__.')
+
+
+def _f(x):
+  return x.a.statement.fields
+
+
+def _is_gin_feature(x):
+  sw = sym.ufun('str_startswith', sym.Str, sym.Str, sym.BoolS)
+  return z3.And(_f(x)['is_from'].e, sw(_f(x)['module'].e, _GINP()))
+
+
+def _feature(x):
+  return world.str_xsplit1('split', _f(x)['module'].e, sym.str_lit('.'))
+
+
+def _has_alias(x):
+  a = _f(x)['alias']
+  return z3.And(z3.Not(a.is_none), a.inner.truthy())
+
+
+def _self_same(x):
+  return PCtx.box(x.self_new) == PCtx.box(x.self_old)
+
+
+c.raise_case('bad_gin_import', 'SyntaxError', when=lambda x: z3.BoolVal(x.exc.origin == 'stmt'),
+             ensures=[
+    ('only_for_aliased_late_or_unknown_features', lambda x: z3.And(_is_gin_feature(x), z3.Or(
+        _has_alias(x), x.self_old.fields['_imports'].len > 0,
+        _feature(x).arr[1] != sym.str_lit('dynamic_registration')))),
+    ('context_unchanged', _self_same)])
+c.raise_case('reserved_name', 'ValueError', when=lambda x: z3.BoolVal(x.exc.origin == 'stmt'),
+             ensures=[('only_for_the_name_gin_under_dynamic_registration', lambda x: z3.And(
+                 x.self_old.fields['_dynamic_registration'].e,
+                 bound_name_of(x.a.statement) == sym.str_lit('gin'))),
+                      ('context_unchanged', _self_same)])
+c.exc_ensure('a_failed_import_leaves_the_table_unchanged', _self_same)
+c.ensure('enabling_is_first_unaliased_and_binds_only_gin', lambda x: z3.Implies(
+    _is_gin_feature(x), z3.And(
+        z3.Not(_has_alias(x)), x.self_old.fields['_imports'].len == 0,
+        x.self_new.fields['_dynamic_registration'].e,
+        x.self_new.fields['_symbol_table'].dom == z3.Store(
+            x.self_old.fields['_symbol_table'].dom, sym.str_lit('gin'), True))))
+c.ensure('a_module_import_binds_exactly_its_bound_name_in_this_context', lambda x: z3.Implies(
+    z3.Not(_is_gin_feature(x)), z3.If(
+        x.self_old.fields['_dynamic_registration'].e,
+        z3.And(bound_name_of(x.a.statement) != sym.str_lit('gin'),
+               x.self_new.fields['_symbol_table'].dom == z3.Store(
+                   x.self_old.fields['_symbol_table'].dom, bound_name_of(x.a.statement), True)),
+        x.self_new.fields['_symbol_table'].dom == x.self_old.fields['_symbol_table'].dom)))
+c.ensure('recorded_last_in_order', lambda x: z3.And(
+    x.self_new.fields['_imports'].len == x.self_old.fields['_imports'].len + 1,
+    x.self_new.fields['_imports'].arr == z3.Store(
+        x.self_old.fields['_imports'].arr, x.self_old.fields['_imports'].len,
+        ImpA.box(x.a.statement))))
+c.may_raise_other = True             # ImportError etc. from the import itself
+register(c)
